@@ -1,0 +1,14 @@
+//go:build verif
+
+package opshell
+
+// VerifHook, if set, is called at the observation points around the Shell's
+// write lock.  It may block: the verification harness uses it as a gate.
+var VerifHook func(point string)
+
+// verifAt reports that the calling goroutine has reached point.
+func verifAt(point string) {
+	if h := VerifHook; nil != h {
+		h(point)
+	}
+}
